@@ -42,8 +42,8 @@ def run(repo: Repo, chk: Check):
         badx = [a for a, e in rows if e and a["X"]]
         chk.judge("R13.a", "generate_code:run:constexpr functions are skipped", not badx,
                   f"function code is appended without excluding constexpr functions (guards {txt})", None, where)
-        if not free and len(ems) == 1:
-            missing = [("main region" if a["M"] else "called function") for a, e in rows if not e and a["C"] and not a["X"]]
+        if not free and (len(ems) == 1 or (len(ems) == 2 and any(e.region == "main" for e in ems) and em.region != "main")):
+            missing = [("main region" if a["M"] else "called function") for a, e in rows if not e and a["C"] and not a["X"] and not (a["M"] and len(ems) == 2)]
             chk.judge("R13.a", "generate_code:run:the main region and every called function are emitted", not missing,
                       f"under the guards {txt} the {sorted(set(missing))} is not emitted", None, where)
     ic = cp.func("FunctionData.is_called")
